@@ -42,6 +42,25 @@ func RPCCounts() map[string]int {
 	return m
 }
 
+// A killed test machine keeps its listening port (so that neither another test machine nor another process can be
+// handed the same address while the driver still holds the old one) but aborts every connection.
+var (
+	deadMu sync.Mutex
+	dead   = map[string]bool{}
+)
+
+func markDead(addr string) {
+	deadMu.Lock()
+	dead[addr] = true
+	deadMu.Unlock()
+}
+
+func isDead(addr string) bool {
+	deadMu.Lock()
+	defer deadMu.Unlock()
+	return dead[addr]
+}
+
 type hookHandler struct {
 	s *System
 	m **bigmachine.Machine
@@ -49,6 +68,9 @@ type hookHandler struct {
 }
 
 func (h hookHandler) ServeHTTP(w http.ResponseWriter, r *http.Request) {
+	if isDead((*h.m).Addr) {
+		panic(http.ErrAbortHandler)
+	}
 	hook := RPCHook
 	if hook == nil {
 		h.h.ServeHTTP(w, r)
